@@ -7,7 +7,7 @@ error handler = fatal, non-zero exit).  A bare fclose on such a stream, or a
 path that leaks it, is a violation.
 """
 from . import common
-from .common import AnalysisBroken, strip, strip_noop, walk, calls, CFG
+from .common import AnalysisBroken, strip, strip_noop, walk, calls, CFG, const_value
 
 EXPLANATION = (
     "O1 typestate: in every compiler unit, each call of fileMustOpen (fileWrOpen/fileWubOpen/... after macro expansion) or "
@@ -582,6 +582,81 @@ def o6(rep):
             rep.violation("O6", key, "emit.c:%d (%s)" % (fn["l"], fname), msg, detail={"cfg_path": esc[:10]})
 
 
+def o8(rep):
+    """The last step of an output written under a temporary name is the move to the requested name (emitFileRename ->
+    fileRename -> osFileRename = rename(2)).  A failed move (the requested name is a directory, a read-only directory, ...)
+    leaves the requested output missing; like a failed close it has to reach the file-error handler.  On the CFG of every
+    function of file.c that calls osFileRename: from the call, following the failure side of each test of its result, the
+    exit is not reachable without a call through `fileError`; a result that is never tested is a violation."""
+    f = common.extract("file.c", all_trees=True, all_cfg=True)
+    n = 0
+    for name, fn in sorted(f.funcs.items()):
+        if "body" not in fn or not fn.get("file", "").endswith("file.c"):
+            continue
+        cs = calls(fn["body"], "osFileRename")
+        if not cs:
+            continue
+        par = common.parents(fn["body"])
+        cfg = common.CFG(fn)
+        for c in cs:
+            n += 1
+            key = "rename-failure-reported:%s" % name
+            where = "file.c:%d (%s)" % (c["l"], name)
+            # the variable holding the result (or the call tested directly)
+            p_ = par.get(c["id"])
+            while p_ is not None and p_["k"] in ("ParenExpr", "ImplicitCastExpr", "CStyleCastExpr"):
+                p_ = par.get(p_["id"])
+            var = None
+            if p_ is not None and p_["k"] == "BinaryOperator" and p_["op"] == "=":
+                var = (strip(p_["c"][0]) or {}).get("n")
+            elif p_ is not None and p_["k"] == "DeclStmt":
+                for d in p_.get("decls", []):
+                    if d.get("init") is not None and any(y is c for y in walk(d["init"])):
+                        var = d["n"]
+
+            def pol(e):
+                e = strip(e)
+                if e is None:
+                    return None
+                if e.get("id") == c["id"] or (e["k"] == "DeclRefExpr" and var and e["n"] == var):
+                    return True                       # non-zero: failed
+                if e["k"] == "UnaryOperator" and e["op"] == "!":
+                    v = pol(e["c"][0])
+                    return None if v is None else (not v)
+                if e["k"] == "BinaryOperator" and e["op"] in ("!=", "==", "<", ">") and const_value(e["c"][1]) == 0:
+                    v = pol(e["c"][0])
+                    return None if v is None else (v if e["op"] != "==" else (not v))
+                return None
+            tested = any(pol(cfg.cond_edges(b)[0]) is not None for b in cfg.blocks if cfg.cond_edges(b) is not None and cfg.cond_edges(b)[0] is not None)
+            if not tested:
+                rep.violation("O8", key, where,
+                              "the result of osFileRename is discarded: when the move of a finished output to its requested name "
+                              "fails (the name is a directory, the directory is read-only) the compiler carries on and exits 0 "
+                              "with the output missing and its text left under a temporary name")
+                continue
+            ev = cfg.events(lambda e: e.get("id") == c["id"])
+            b0, i0, _ = ev[0]
+
+            def failing_side(bid, succ):
+                ce = cfg.cond_edges(bid)
+                if ce is None or ce[0] is None:
+                    return True
+                v = pol(ce[0])
+                if v is None:
+                    return True
+                return succ == (ce[1] if v else ce[2])
+
+            def handler(e):
+                return e["k"] == "CallExpr" and e.get("callee") is None and any(y["k"] == "DeclRefExpr" and y["n"] == "fileError" for y in walk(e["c"][0]))
+            pth = cfg.path_avoiding(b0, None, handler, src_idx=i0, edge_ok=failing_side)
+            if pth is None:
+                rep.ok("O8", key)
+            else:
+                rep.violation("O8", key, where, "a failed osFileRename can leave %s without the file-error handler being called" % name,
+                              detail={"cfg_path": pth[:10]})
+    rep.floor("moves of an output to its requested name (file.c)", n, 1)
+
+
 def run(tier, only=None):
     global _MODES
     rep = common.Report("C18", tier, EXPLANATION)
@@ -632,4 +707,7 @@ def run(tier, only=None):
                         "streams are not smuggled out of the opening function other than into libNew"]
     o5(rep)
     o6(rep)
+    o8(rep)
+    from . import staticbuf
+    staticbuf.report(rep, "O7")        # file names handed to rename/remove/open are distinct strings
     return rep
